@@ -182,6 +182,22 @@ def s15_bins(ctx):
         data.append((n, azs, lens))
         reqs.append(f"bins w={rat(az._calc_ideal_bin_width(n))} az={','.join(rat(float(a)) for a in azs)}")
     resps = ctx.driver.parallel(reqs)
+    # the prelude's pyHistogram (what the regenerated determine_azimuth_bins calls for np.histogram) against numpy itself, on the REAL float edges
+    # (floats are exact rationals and numpy compares them exactly, weights are multiples of 1/8: the heights must be equal, not just close)
+    hreqs, hwant = [], []
+    for n, azs, lens in data[:budget(ctx.tier, 25, 200)]:
+        edges, _ = az._calc_bins(az._calc_ideal_bin_width(n), True)
+        extra = np.concatenate([azs, np.array([float(e) for e in edges[:4]] + [-1.0, 180.5])])
+        wts = np.concatenate([lens, np.array([0.5] * (len(extra) - len(lens)))])
+        hreqs.append(f"hist edges={','.join(rat(float(e)) for e in edges)} vals={','.join(rat(float(a)) for a in extra)} w={','.join(rat(float(l)) for l in wts)}")
+        hwant.append((n, [float(h) for h in np.histogram(extra, edges, weights=wts)[0]]))
+    for (n, want), resp in zip(hwant, ctx.driver.parallel(hreqs)):
+        res.evaluations += 1
+        got = [float(Fraction(x)) for x in parse_resp(resp)["heights"].split(",")] if parse_resp(resp).get("heights") else []
+        res.distribution["pyHistogram_vs_numpy"] = res.distribution.get("pyHistogram_vs_numpy", 0) + 1
+        if got != want:
+            res.disagreements.append(Disagreement("S15-bins", {"stream": "S15-bins", "n": n, "what": "prelude pyHistogram vs np.histogram"}, got, want, None,
+                                                  "the prelude's pyHistogram differs from np.histogram on exact inputs (values on edges and outside the range included)"))
     for (n, azs, lens), resp in zip(data, resps):
         res.evaluations += 1
         r = parse_resp(resp)
